@@ -193,8 +193,22 @@ theorem unguarded_fault_escapes :
     (tick tickPhases { faults := [(interpIdx, .other)], hf := .first } runningState).1.methodErr = false := by
   decide +kernel
 
+/-- `set_error_state` pauses a *run*: whenever a run is active (`_runstate_started`) it leaves `_last_error` set,
+    Method Status Error, the paused flag and System State Paused … -/
+theorem error_pauses_a_run (s : Shell) (h : s.started = true) : ErrorState (setErr s) :=
+  setErr_errorState s (Or.inr h)
+
+/-- … and with no run active it only reports: Method Status Error and `_last_error`, the run flags and the
+    System State stay as they are (repair 560eee15). -/
+theorem error_without_run_only_reports (s : Shell) (h : s.started = false) :
+    (setErr s).methodErr = true ∧ (setErr s).lastErr = true ∧ (setErr s).paused = s.paused ∧
+    (setErr s).sys = s.sys ∧ (setErr s).started = false := by
+  refine ⟨setErr_methodErr s, setErr_lastErr s, (setErr_idle s h).1, (setErr_idle s h).2, ?_⟩
+  rw [setErr_started]; exact h
+
 /-- **A failing instruction pauses the run with Method Status Error**: the interpreter phase raises while
-    the run is executing (started, not paused / on hold / stopping) and no command is pending; whatever
+    the run is executing (`condHolds .runnable s`: a run is active — `s.started` — and it is not paused / on
+    hold / stopping) and no command is pending; whatever
     else fails in the same tick (under guarded faults), the tick does not raise and ends with
     `_last_error` set, Method Status Error, paused, System State Paused. -/
 theorem failing_instruction_pauses (pl : Plan) (s : Shell) (hg : pl.Guarded tickPhases)
@@ -207,6 +221,41 @@ theorem failing_instruction_pauses (pl : Plan) (s : Shell) (hg : pl.Guarded tick
 example : ({ faults := [(interpIdx, .other)] } : Plan).Guarded tickPhases ∧
     hitsInterp { faults := [(interpIdx, .other)] } 0 tickPhases = true ∧
     condHolds .runnable runningState = true ∧ Idle runningState := by
+  decide +kernel
+
+/-- the hypothesis of `failing_instruction_pauses` speaks about a run -/
+theorem runnable_is_a_run (s : Shell) (h : condHolds .runnable s = true) : s.started = true :=
+  runnable_started s h
+
+/-! ### an error while no run is active -/
+
+/-- **Error while no run is active** (a command, the tag notification, a hardware read … fails between runs):
+    under every guarded fault plan the tick does not raise and there is still no run — System State stays
+    Stopped, not paused; Start is accepted afterwards. -/
+theorem error_while_no_run (pl : Plan) (s : Shell) (hg : pl.Guarded tickPhases) (h : NoRun s) :
+    (tick tickPhases pl s).2 = false ∧ NoRun (tick tickPhases pl s).1 ∧
+    (user (tick tickPhases pl s).1 .start).2 = true ∧ StartQueued (user (tick tickPhases pl s).1 .start).1 := by
+  have hn := tick_noRun tickPhases pl hg s h
+  refine ⟨tick_never_raises_guarded pl s hg, hn, ?_, ?_⟩
+  · simp [user, accepts, hn.2.2.1]
+  · simp only [user, accepts, hn.2.2.1, beq_self_eq_true, if_true]
+    exact ⟨by simp [hn.2.2.2.1], hn.2.2.2.2, hn.1⟩
+
+/-- …the error is reported: when a phase that runs unconditionally inside a handler (the command manager, the tag
+    notification) raises, Method Status is Error and `_last_error` is set — with no run, still Stopped. -/
+theorem error_while_no_run_is_reported (pl : Plan) (s : Shell) (hg : pl.Guarded tickPhases) (h : NoRun s)
+    (hh : hitsAlways pl 0 tickPhases = true) : NoRunErr (tick tickPhases pl s).1 :=
+  tickFrom_idle_fault pl hg.1 tickPhases 0 { s := s } hg.2 table_wf.1.1 hh rfl (by simp) h
+
+/-- …and the tick after the accepted Start starts the run: started, System State Running, Method Status OK
+    (`_last_error` stays set until a method is merged, `last_error_persists`). -/
+theorem start_after_idle_error (s : Shell) (h : StartQueued s) : RunStarted (tick tickPhases {} s).1 :=
+  tick_start tickPhases cmdIdx table_wf.1 {} (by decide +kernel) rfl s h
+
+example : NoRun ({} : Shell) ∧ ({ faults := [(cmdIdx, .other)] } : Plan).Guarded tickPhases ∧
+    hitsAlways { faults := [(cmdIdx, .other)] } 0 tickPhases = true ∧
+    NoRunErr (tick tickPhases { faults := [(cmdIdx, .other)] } {}).1 ∧
+    RunStarted (tick tickPhases {} (user (tick tickPhases { faults := [(cmdIdx, .other)] } {}).1 .start).1).1 := by
   decide +kernel
 
 /-- `_last_error` survives every tick (only a merged method clears it) -/
